@@ -3,6 +3,7 @@ package main
 // rules_wmc.go — who-may-call / who-may-write rules (ownership and layering).
 
 import (
+	"go/token"
 	"fmt"
 	"go/types"
 	"sort"
@@ -110,6 +111,87 @@ func (w *World) whoCalls(targets map[*types.Func]bool) []wmcSite {
 	return out
 }
 
+// ownersOfHelper: for a private helper (unexported, top-level, never used as a value), the functions that reach
+// it through private helpers of the same package only; stop(k) says that a caller is an owner in its own right.
+// ok=false when fn is not a private helper, has no caller, or the chain is deeper than depth.
+func (w *World) ownersOfHelper(fn *ssa.Function, depth int, stop func(string) bool) ([]string, bool) {
+	set := map[string]bool{}
+	seen := map[*ssa.Function]bool{}
+	var walk func(f *ssa.Function, d int) bool
+	walk = func(f *ssa.Function, d int) bool {
+		if f == nil {
+			return false
+		}
+		if seen[f] {
+			return true
+		}
+		seen[f] = true
+		if d < 0 || token.IsExported(f.Name()) || f.Pkg == nil || !isRepoPath(f.Pkg.Pkg.Path()) || f.Parent() != nil || w.usedAsValue(f) {
+			return false
+		}
+		n := 0
+		for _, c := range w.Callers(f) {
+			top := topFunc(c.Caller)
+			if w.IsTestFunc(top) || (top.Synthetic != "" && len(w.Callers(top)) == 0) {
+				continue // tests; uncalled promoted-method wrappers of embedding types
+			}
+			n++
+			if top.Pkg != f.Pkg {
+				return false
+			}
+			k := funcKey(top)
+			if stop(k) || token.IsExported(top.Name()) {
+				set[k] = true
+				continue
+			}
+			if !walk(top, d-1) {
+				set[k] = true // not a helper itself: it is the owner
+			}
+		}
+		return n > 0
+	}
+	if !walk(fn, depth) {
+		return nil, false
+	}
+	out := sortedKeys(set)
+	return out, len(out) > 0
+}
+
+// usedAsValue: fn is referenced other than as the static callee of a call (function value, method value, go/defer of a closure…)
+func (w *World) usedAsValue(fn *ssa.Function) bool {
+	if w.valueUse == nil {
+		w.valueUse = map[*ssa.Function]bool{}
+		for _, f := range w.RepoFuncs {
+			for _, b := range f.Blocks {
+				for _, in := range b.Instrs {
+					var callee ssa.Value
+					if c, ok := in.(ssa.CallInstruction); ok {
+						callee = c.Common().Value
+					}
+					for _, op := range in.Operands(nil) {
+						if op == nil || *op == nil || *op == callee {
+							continue
+						}
+						switch x := (*op).(type) {
+						case *ssa.Function:
+							w.valueUse[x] = true
+						case *ssa.MakeClosure:
+							if g, ok := x.Fn.(*ssa.Function); ok && strings.HasSuffix(g.Name(), "$bound") {
+								if o, ok := g.Object().(*types.Func); ok {
+									if tf := w.Prog.FuncValue(o); tf != nil {
+										w.valueUse[tf] = true
+									}
+								}
+							}
+						}
+					}
+				}
+			}
+		}
+	}
+	return w.valueUse[fn]
+}
+
 // wmc checks that all callers of the targets are in the allow-list (keys: funcKey of the top-level
 // caller; value: one-line reason). Also checks the server module's uses.
 func wmc(w *World, r *Report, what string, targets map[*types.Func]bool, allow map[string]string, minSites int) {
@@ -121,6 +203,23 @@ func wmc(w *World, r *Report, what string, targets map[*types.Func]bool, allow m
 		if _, ok := allow[k]; ok {
 			used[k] = true
 			continue
+		}
+		// a private helper belongs to its callers: the site is attributed to every function that (transitively,
+		// through unexported functions of the same package) calls the helper; all of them must be allowed
+		if owners, ok := w.ownersOfHelper(s.Caller, 3, func(k string) bool { _, ok := allow[k]; return ok }); ok {
+			all := true
+			for _, o := range owners {
+				if _, ok := allow[o]; !ok {
+					all = false
+				}
+			}
+			if all {
+				for _, o := range owners {
+					used[o] = true
+				}
+				r.Note(what+":via-helper:"+k, "call site sits in a private helper whose callers are all allowed", k+" <- "+strings.Join(owners, ", "))
+				continue
+			}
 		}
 		bad[k] = append(bad[k], w.InstrPos(s.In)+" -> "+s.Target)
 	}
@@ -204,6 +303,8 @@ func wmw(w *World, r *Report, what string, fld *types.Var, kinds map[string]bool
 	for _, k := range ks {
 		if reason, ok := allow[k]; ok {
 			r.Ok(what+":allowed-writer:"+k, "allowed writer ("+reason+")")
+		} else if owners, ok := w.ownersOfHelper(w.fnByKey(k), 3, func(k string) bool { _, ok := allow[k]; return ok }); ok && allIn(owners, allow) {
+			r.Note(what+":via-helper:"+k, "the write sits in a private helper whose callers are all allowed writers", k+" <- "+strings.Join(owners, ", "))
 		} else {
 			r.Bad(what+":writer:"+k, "only the listed owners may write "+what, k+" writes it: "+strings.Join(ws[k], ", "))
 		}
@@ -340,4 +441,25 @@ func mergeSets(a, b map[*types.Func]bool) map[*types.Func]bool {
 		out[k] = true
 	}
 	return out
+}
+
+func allIn(ks []string, allow map[string]string) bool {
+	for _, k := range ks {
+		if _, ok := allow[k]; !ok {
+			return false
+		}
+	}
+	return len(ks) > 0
+}
+
+func (w *World) fnByKey(k string) *ssa.Function {
+	if w.byKey == nil {
+		w.byKey = map[string]*ssa.Function{}
+		for _, f := range w.RepoFuncs {
+			if f.Parent() == nil {
+				w.byKey[funcKey(f)] = f
+			}
+		}
+	}
+	return w.byKey[k]
 }
